@@ -31,7 +31,7 @@ pub fn run_stream(
 ) -> bool {
     // async engines: all cases of the input run on one single-threaded ntex runtime
     let lines: Vec<String> = match name {
-        "respq" | "selftest" | "sink3" | "sink5" | "inb3" | "inb5" | "hs" | "iostate" | "timerrt" => {
+        "respq" | "selftest" | "sink3" | "sink5" | "inb3" | "inb5" | "cli3" | "cli5" | "hs" | "iostate" | "timerrt" => {
             let mut text = String::new();
             inp.read_to_string(&mut text).unwrap();
             text.lines().map(str::to_string).collect()
@@ -59,6 +59,12 @@ pub fn run_stream(
     }
     if name == "hs" {
         for l in hs::run_lines(lines) {
+            writeln!(out, "{l}").unwrap();
+        }
+        return true;
+    }
+    if name == "cli3" || name == "cli5" {
+        for l in inbound::run_client_lines(name == "cli5", lines) {
             writeln!(out, "{l}").unwrap();
         }
         return true;
